@@ -50,6 +50,7 @@ def check(m, run):
     n_tn = len(run.obs)
     try:
         _sd.tn3(m, run)
+        _sd.sc2(m, run)        # hodograph control points go through the setters: stored as given
         _sd.vn2(m, run)        # ... and a normalised tangent / normal is v / |v| for every v (the real vector_normalize on symbolic vectors)
     except AnalysisError as ex:
         run.error(str(ex))
